@@ -511,7 +511,19 @@ func Run(p *Prop, opts Opts) (*Result, error) {
 			res.Violations = append(res.Violations, f)
 			continue
 		}
-		// 2. correspondence break: search for a failing input around it
+		// 2. correspondence breaks are handled in a second pass, so that failing inputs found by the
+		// monitor are reported first
+	}
+	for _, oc := range outs {
+		hasMon := false
+		for _, m := range oc.mon {
+			if attribute(oc.c, oc.real, m) == "" {
+				hasMon = true
+			}
+		}
+		if hasMon {
+			continue
+		}
 		if oc.disLine >= 0 && len(res.Violations) < 5 {
 			min := shrink(p, oc.c, func(c Case) bool { return runCase(p, so, c).disLine >= 0 })
 			o2 := runCase(p, so, min)
